@@ -132,6 +132,35 @@ func (p *PackageInfo) validate() error {
 	return errorSink.AsError()
 }
 
+// ValidateOverrides checks, once fields have been overridden from the command line, what
+// validate() demands of those fields when the manifest is read. Without it an override
+// that empties a field is only noticed by the code generator that uses it, after other
+// generators have written their output.
+func (p *PackageInfo) ValidateOverrides() error {
+	errorSink := &validation.ErrorSink{}
+
+	if p.Namespace == "" {
+		errorSink.Add(validation.NewValidationError(errors.New("the 'namespace' field is missing"), p.FilePath))
+	} else if !namespaceNameRegex.MatchString(p.Namespace) {
+		errorSink.Add(validation.NewValidationError(fmt.Errorf("the 'namespace' field must be PascalCased and match the format %s", namespaceNameRegex.String()), p.FilePath))
+	}
+
+	if p.Json != nil && p.Json.OutputDir == "" {
+		errorSink.Add(validation.NewValidationError(errors.New("the 'json.outputDir' field must not be empty"), p.FilePath))
+	}
+	if p.Cpp != nil && p.Cpp.SourcesOutputDir == "" {
+		errorSink.Add(validation.NewValidationError(errors.New("the 'cpp.sourcesOutputDir' field must not be empty"), p.FilePath))
+	}
+	if p.Python != nil && p.Python.OutputDir == "" {
+		errorSink.Add(validation.NewValidationError(errors.New("the 'python.outputDir' field must not be empty"), p.FilePath))
+	}
+	if p.Matlab != nil && p.Matlab.OutputDir == "" {
+		errorSink.Add(validation.NewValidationError(errors.New("the 'matlab.outputDir' field must not be empty"), p.FilePath))
+	}
+
+	return errorSink.AsError()
+}
+
 type Import struct {
 	Url     string
 	Package *PackageInfo
